@@ -501,6 +501,10 @@ pub fn build(full_name: &str, level: u8) -> Option<Scenario> {
                     Action::Settle0(1),
                 ];
             }
+            if n.contains("-probe") {
+                // follower 3 was reported unreachable: its progress starts in Probe state
+                s.prefix.extend(vec![Action::Unreachable(1, 3), Action::Settle0(1)]);
+            }
             if n.contains("-pre2") {
                 // two proposals accepted by the leader in one (asynchronously persisted) Ready
                 s.prefix.extend(vec![Action::Propose(1, 0), Action::Propose(1, 0), Action::ReadyAsync(1)]);
@@ -609,6 +613,13 @@ pub fn build(full_name: &str, level: u8) -> Option<Scenario> {
                         c.props = 3;
                         c.drops = 0;
                     }
+                }
+                if n.contains("-probe") {
+                    // one proposal to commit (its commit broadcast is an empty append), one
+                    // stepped before that Ready is taken, one afterwards
+                    c.props = 3;
+                    c.beats = 0;
+                    c.reorders = 0;
                 }
                 if n.contains("-pre2") {
                     c.props = 0;
@@ -736,6 +747,16 @@ pub fn build(full_name: &str, level: u8) -> Option<Scenario> {
                     Action::HoldApply(false),
                 ];
             }
+            if n.contains("-al") {
+                // only the leader's application lags
+                for (k, nd) in s.nodes.iter_mut().enumerate() {
+                    nd.apply_lag = k == 0;
+                }
+            }
+            if n.contains("-joint") && l == 0 {
+                // level 0: two proposals out of {enter (again), leave}, nothing else
+                s.cc_menu.truncate(2);
+            }
             let c4 = n.contains("-c4");
             if c4 {
                 // the spare node 4 is made a voter; it may be asked for its vote before its own
@@ -759,6 +780,7 @@ pub fn build(full_name: &str, level: u8) -> Option<Scenario> {
                 s.transfer_targets = vec![2];
             }
             let (ccs, props, to, crashes, mt, mi, xf, lazy) = match l {
+                0 if n.contains("-joint") => (2, 0, 0, 0, 2, 6, 0, 1),
                 0 if c4 => (0, 0, 1, 1, 3, 6, 0, 1),
                 1 if c4 => (0, 0, 2, 1, 3, 6, 0, 1),
                 0 if two => (1, 1, 1, 0, 3, 6, 0, 1),
@@ -1122,6 +1144,10 @@ pub fn build(full_name: &str, level: u8) -> Option<Scenario> {
                 // the same lagging target is asked for twice
                 s.clients_at = vec![1];
                 s.transfer_targets = vec![3];
+            }
+            if n.contains("-al") {
+                // the leader's application lags: its configuration can be behind the followers'
+                s.nodes[0].apply_lag = true;
             }
             let pipe = n.contains("-pipe");
             if pipe {
